@@ -1,5 +1,177 @@
-(* C08 proofs: assembled from BSpline/EvalProofs.v and BSpline/CoxDeBoor.v *)
-From Coq Require Import QArith List Bool Arith Lia.
+(* C08 proofs: facts about the checkers of C08/Model.v; the theorems about the shared model live in
+   BSpline/{EvalProofs,CoxDeBoor,BasisProofs,KnotsProofs,PermProofs}.v *)
+From Coq Require Import QArith Qround Qabs Lqa List Bool Arith Lia.
 Import ListNotations.
-From PV Require Import Lib.WLS BSpline.Eval BSpline.EvalProofs.
+From PV Require Import Lib.WLS BSpline.Eval BSpline.EvalProofs BSpline.CoxDeBoor C08.Model.
 Open Scope Q_scope.
+
+(* the reduced-fraction evaluators used by the specification checker are the textbook recursion *)
+Lemma zmul_eq r b : zmul r b == r * b.
+Proof.
+  unfold zmul. destruct (Qeq_bool b 0) eqn:E; [|reflexivity].
+  apply Qeq_bool_iff in E. rewrite E. ring.
+Qed.
+
+Lemma Bq_eq t m : forall i x, Bq t m i x == B t m i x.
+Proof.
+  induction m as [|m IH]; intros i x; cbn [Bq B]; [reflexivity|].
+  rewrite Qred_correct, !zmul_eq, !IH. reflexivity.
+Qed.
+
+Lemma Blq_eq t m : forall i x, Blq t m i x == Bl t m i x.
+Proof.
+  induction m as [|m IH]; intros i x; cbn [Blq Bl]; [reflexivity|].
+  rewrite Qred_correct, !zmul_eq, !IH. reflexivity.
+Qed.
+
+Lemma splineq_from_eq (f g : nat -> Q -> Q) c : (forall i x, f i x == g i x) ->
+  forall i x, splineq_from f c i x == spline_from g c i x.
+Proof.
+  intros H. induction c as [|a c IH]; intros i x; cbn [splineq_from spline_from]; [reflexivity|].
+  rewrite Qred_correct, H, IH. reflexivity.
+Qed.
+
+Lemma splineq_eq t c k x : splineq t c k x == spline t c k x.
+Proof. unfold splineq, spline. apply splineq_from_eq. intros; apply Bq_eq. Qed.
+
+Lemma splineq_left_eq t c k x : splineq_left t c k x == spline_left t c k x.
+Proof. unfold splineq_left, spline_left. apply splineq_from_eq. intros; apply Blq_eq. Qed.
+
+(* the validity mask while no breakpoint is masked: False exactly outside [t_{k-1}, t_n] *)
+Lemma select_all_true {A} (l : list A) : select (repeat true (length l)) l = l.
+Proof. induction l as [|a l IH]; cbn; [reflexivity|]. now rewrite IH. Qed.
+
+Lemma good_positions_all_true n : forall p, good_positions (repeat true n) p = seq p n.
+Proof. induction n as [|n IH]; intros p; cbn; [reflexivity|]. now rewrite IH. Qed.
+
+Lemma gaps_seq bk n : forall p, gaps bk (seq p n) = [].
+Proof.
+  induction n as [|n IH]; intros p; [reflexivity|].
+  cbn [seq]. destruct n as [|n]; [reflexivity|].
+  cbn [seq gaps]. replace (S p - p)%nat with 1%nat by lia. cbn [Nat.ltb Nat.leb].
+  exact (IH (S p)).
+Qed.
+
+Lemma mask_spec bk k x :
+  point_mask bk (repeat true (length bk)) k x = false <->
+  (x < nthQ bk (k - 1) \/ nthQ bk (length bk - k) < x).
+Proof.
+  unfold point_mask. rewrite select_all_true, good_positions_all_true, gaps_seq.
+  cbn [forallb]. rewrite andb_true_r. unfold in_range_mask.
+  rewrite negb_false_iff, orb_true_iff, !Qltb_lt. reflexivity.
+Qed.
+
+(* ------------------------------------------------------------------ evaluation = Cox-de Boor spline *)
+From PV Require Import BSpline.BasisProofs BSpline.KnotsProofs.
+
+(* every x of the breakpoint range (t_{k-1}, t_n] is evaluated to the left-continuous spline,
+   the left end point t_{k-1} to the (right-continuous) textbook spline *)
+Theorem eval1_is_spline_left gb k c x :
+  nondecr gb -> (1 <= k)%nat -> (2 * k <= length gb)%nat -> length c = (length gb - k)%nat ->
+  nthQ gb (k - 1) < x -> x <= nthQ gb (length gb - k) ->
+  eval1 gb k c x == spline_left gb c k x.
+Proof.
+  intros Hnd Hk Hg Hc Hlo Hhi. unfold eval1.
+  destruct (intrv1_spec gb k x Hk Hg) as [[H1 H2] [H3 H4]].
+  set (l := intrv1 gb k x) in *.
+  apply eval_at_is_spline_left; try assumption; try lia.
+  - destruct (Nat.eq_dec l (k - 1)) as [E|E]; [rewrite E; exact Hlo | apply H3; lia].
+  - destruct (Nat.eq_dec l (length gb - k - 1)) as [E|E].
+    + replace (S l) with (length gb - k)%nat by lia. exact Hhi.
+    + apply H4. lia.
+Qed.
+
+Theorem eval1_is_spline_at_left_end gb k c x :
+  nondecr gb -> (1 <= k)%nat -> (2 * k <= length gb)%nat -> length c = (length gb - k)%nat ->
+  x == nthQ gb (k - 1) -> nthQ gb (k - 1) < nthQ gb k ->
+  eval1 gb k c x == spline gb c k x.
+Proof.
+  intros Hnd Hk Hg Hc Hx Hlt. unfold eval1.
+  destruct (intrv1_spec gb k x Hk Hg) as [[H1 H2] [H3 H4]].
+  set (l := intrv1 gb k x) in *.
+  assert (El : l = (k - 1)%nat).
+  { destruct (Nat.eq_dec l (k - 1)) as [E|E]; [exact E|exfalso].
+    assert (Hl : nthQ gb l < x) by (apply H3; lia).
+    assert (Hm : nthQ gb (k - 1) <= nthQ gb l) by (apply Hnd; lia).
+    rewrite Hx in Hl. apply (Qlt_not_le _ _ Hl Hm). }
+  rewrite El. apply eval_at_is_spline; try assumption; try lia.
+  - rewrite Hx. apply Qle_refl.
+  - rewrite Hx. replace (S (k - 1)) with k by lia. exact Hlt.
+Qed.
+
+(* orders >= 2 on distinct knots: the two conventions agree, so every point of the breakpoint range
+   gets the value of THE B-spline of the knots and coefficients *)
+Theorem value_is_spline gb k c x :
+  incr gb -> (2 <= k)%nat -> (2 * k <= length gb)%nat -> length c = (length gb - k)%nat ->
+  nthQ gb (k - 1) <= x -> x <= nthQ gb (length gb - k) ->
+  eval1 gb k c x == spline gb c k x.
+Proof.
+  intros Hi Hk Hg Hc Hlo Hhi.
+  assert (Hnd : nondecr gb) by (apply incr_nondecr; exact Hi).
+  destruct (Qlt_le_dec (nthQ gb (k - 1)) x) as [Hlt|Hle].
+  - rewrite eval1_is_spline_left by (try assumption; lia).
+    apply spline_left_eq_spline; try assumption; try lia.
+  - apply eval1_is_spline_at_left_end; try assumption; try lia.
+    + apply Qle_antisym; assumption.
+    + replace k with (S (k - 1)) at 2 by lia. apply Hi. lia.
+Qed.
+
+(* ------------------------------------------------------------------ value(): caller's order *)
+From PV Require Import BSpline.PermProofs.
+
+Lemma unsort_indep {A} (d d' : A) p s : is_perm p (length s) = true -> unsort d p s = unsort d' p s.
+Proof.
+  intro Hp. destruct (is_perm_spec p (length s) Hp) as [Hl [_ Hin]].
+  unfold unsort. apply map_ext_in. intros j Hj. apply in_seq in Hj.
+  apply nth_indep. destruct (nth_index_of j p) as [_ H]; [apply Hin; lia | lia].
+Qed.
+
+Lemma apply_perm_indep {A} (d d' : A) p l : is_perm p (length l) = true -> apply_perm d p l = apply_perm d' p l.
+Proof.
+  intro Hp. destruct (is_perm_spec p (length l) Hp) as [_ [_ Hin]].
+  unfold apply_perm. apply map_ext_in. intros i Hi. apply nth_indep. apply Hin. exact Hi.
+Qed.
+
+Lemma select_all_true_skipn {A} k (bk : list A) (coeff : list Q) :
+  length coeff = (length bk - k)%nat -> select (skipn k (repeat true (length bk))) coeff = coeff.
+Proof.
+  intro H. replace (skipn k (repeat true (length bk))) with (repeat true (length coeff)).
+  - apply select_all_true.
+  - rewrite H. clear H. revert k. induction (length bk) as [|n IH]; intros k.
+    + destruct k; reflexivity.
+    + destruct k as [|k]; [rewrite Nat.sub_0_r; reflexivity|]. cbn [repeat skipn Nat.sub]. apply IH.
+Qed.
+
+Theorem value_in_caller_order bk k coeff xs perm :
+  (1 <= k)%nat -> (2 * k <= length bk)%nat -> length coeff = (length bk - k)%nat ->
+  is_perm perm (length xs) = true -> sortedQ (apply_perm 0 perm xs) = true ->
+  value bk (repeat true (length bk)) k coeff xs perm
+  = (map (eval1 bk k coeff) xs, map (point_mask bk (repeat true (length bk)) k) xs).
+Proof.
+  intros Hk Hg Hc Hp Hs. unfold value.
+  rewrite select_all_true, (select_all_true_skipn k bk coeff Hc).
+  f_equal.
+  rewrite (value_sorted_pointwise_gen bk k coeff _ Hk Hg Hs).
+  rewrite <- (apply_perm_map (eval1 bk k coeff) 0 perm xs).
+  rewrite (unsort_indep 0 (eval1 bk k coeff 0)).
+  - apply unsort_apply. rewrite map_length. exact Hp.
+  - rewrite length_apply_perm. destruct (is_perm_spec _ _ Hp) as [Hl _]. rewrite Hl. exact Hp.
+Qed.
+
+(* permuting the evaluation points permutes values and mask identically *)
+Theorem value_perm_equivariant bk k coeff xs q p p' :
+  (1 <= k)%nat -> (2 * k <= length bk)%nat -> length coeff = (length bk - k)%nat ->
+  is_perm q (length xs) = true ->
+  is_perm p (length xs) = true -> sortedQ (apply_perm 0 p xs) = true ->
+  is_perm p' (length (apply_perm 0 q xs)) = true -> sortedQ (apply_perm 0 p' (apply_perm 0 q xs)) = true ->
+  let bm := repeat true (length bk) in
+  value bk bm k coeff (apply_perm 0 q xs) p'
+  = (apply_perm 0 q (fst (value bk bm k coeff xs p)), apply_perm true q (snd (value bk bm k coeff xs p))).
+Proof.
+  intros Hk Hg Hc Hq Hp Hs Hp' Hs' bm. unfold bm.
+  rewrite (value_in_caller_order bk k coeff (apply_perm 0 q xs) p' Hk Hg Hc Hp' Hs').
+  rewrite (value_in_caller_order bk k coeff xs p Hk Hg Hc Hp Hs). cbn [fst snd].
+  f_equal.
+  - rewrite <- apply_perm_map. apply apply_perm_indep. rewrite map_length. exact Hq.
+  - rewrite <- apply_perm_map. apply apply_perm_indep. rewrite map_length. exact Hq.
+Qed.
